@@ -38,11 +38,12 @@ func init() {
 			{ID: "C07-R14", Title: "VMs are not recycled through shared containers", Floor: 1, Run: vmNotPooled},
 			{ID: "C07-R15", Title: "cell storage is per activation (shared with C02-R2)", Floor: 4, Run: c02r2},
 			{ID: "C07-R5", Title: "VM-level caches are filled only after the fallible work succeeded", Floor: 1, Run: c07r5},
-			{ID: "C07-R16", Title: "references shared with clones are not written through", Floor: 3, Run: cloneAliasesNotWrittenThrough},
+			{ID: "C07-R16", Title: "references shared with clones are not written through", Floor: 1, Run: cloneAliasesNotWrittenThrough},
 			{ID: "C07-R17", Title: "the halt flag is cleared on every successful start (shared with C18)", Floor: 1, Run: haltClearedOnEveryStart},
 			{ID: "C07-R18", Title: "Run resumes at the saved ip only for code that is still loaded", Floor: 1, Run: savedIPBelongsToLoadedCode},
 			{ID: "C07-R19", Title: "the stack pointer is advanced only after the slot was written (it always indexes the array)", Floor: 1, Run: spStaysInRange},
 			{ID: "C07-R20", Title: "a failed start leaves the VM stopped", Floor: 1, Run: failedStartLeavesVMStopped},
+			{ID: "C07-R21", Title: "options that are rejected leave the VM's globals as they were", Floor: 1, Run: rejectedOptionsAreRolledBack},
 		},
 	})
 }
@@ -274,7 +275,7 @@ func c07r3(c *core.Ctx) {
 	// run state = fields that the dispatch function / frame activation write, minus configuration (fields Option closures write), minus synchronisation
 	required := map[string]string{
 		"sp": "operand stack pointer", "ip": "instruction pointer", "fp": "frame pointer",
-		r.halt.Name(): "halt flag", "activeFrame": "active frame", "activeCode": "active code",
+		"activeFrame": "active frame", "activeCode": "active code",
 		"loadedCode": "per-VM code wrappers (hold the globals of the previous code)", "modules": "import cache of the previous code",
 	}
 	for name, what := range required {
@@ -285,6 +286,10 @@ func c07r3(c *core.Ctx) {
 		}
 		c.Check(w[f], "vm.VirtualMachine."+reset.Name()+"|resets:"+name, posOf(p, resetDecl), "running new code on a reused VM resets "+name+" ("+what+")")
 	}
+	// the halt flag is the arming function's: it clears it on every start (C07-R17) and arms the watcher,
+	// after which only the watcher may write it - the reset runs after arming and must leave it alone
+	c.Check(!w[r.halt], "vm.VirtualMachine."+reset.Name()+"|leaves-halt-to-the-arming-function", posOf(p, resetDecl),
+		"the reset for new code does not write the halt flag (it runs after the watcher was armed: a plain write there can wipe out a halt request of an already cancelled context)")
 	// the reset is invoked by the run path when state must not carry over: some caller of arm calls reset
 	called := false
 	for _, m := range core.Methods(r.vmT) {
